@@ -181,8 +181,9 @@ ASMJIT_FAVOR_SIZE Error init_call_conv(CallConv& cc, CallConvId call_conv_id, co
         cc.set_flags(CallConvFlags::kPassFloatsByVec |
                     CallConvFlags::kPassMmxByGp     );
         cc.set_natural_stack_alignment(16);
-        // Maximum 6 arguments in registers, each adds 8 bytes to the spill zone.
-        cc.set_spill_zone_size(6 * 8);
+        // The home area of RCX|RDX|R8|R9 is the same as in `kX64Windows` case. Arguments passed in XMM4 and XMM5 own
+        // an 8-byte slot as well, but only if they are passed by these registers (it's accounted by `FuncDetail`).
+        cc.set_spill_zone_size(4 * 8);
         cc.set_passed_order(RegGroup::kGp, kZcx, kZdx, 8, 9);
         cc.set_passed_order(RegGroup::kVec, 0, 1, 2, 3, 4, 5);
         cc.set_preserved_regs(RegGroup::kGp, Support::bit_mask<RegMask>(kZbx, kZsp, kZbp, kZsi, kZdi, 12, 13, 14, 15));
@@ -489,6 +490,12 @@ ASMJIT_FAVOR_SIZE Error init_func_detail(FuncDetail& func, const FuncSignature& 
                 RegType reg_type = vec_type_id_to_reg_type(type_id);
                 arg.assign_reg_data(reg_type, reg_id);
                 func.add_used_regs(RegGroup::kVec, Support::bit_mask<RegMask>(reg_id));
+
+                // Arguments are positional - the 5th and 6th argument passed in XMM4|XMM5 (VectorCall) own a stack
+                // slot the same way as the first four arguments own their home in the spill zone.
+                if (arg_index * 8u >= cc._spill_zone_size) {
+                  stack_offset += 8;
+                }
                 continue;
               }
             }
